@@ -1,5 +1,8 @@
 import TR.Model.Common
 import TR.Model.Bulkhead
+import TR.Model.Chaos
+import TR.Model.Fallback
+import TR.Model.Coalesce
 import TR.Model.Backoff
 import TR.Model.Reconnect
 import TR.Model.Hedge
@@ -26,6 +29,9 @@ def machineOf (name : String) : Option Machine :=
   | "hedge" => some Hedge.machine
   | "reconnect" => some Reconnect.machine
   | "backoff" => some Backoff.machine
+  | "coalesce" => some Coalesce.machine
+  | "fallback" => some Fallback.machine
+  | "chaos" => some Chaos.machine
   | _ => none
 
 structure Run (m : Machine) where
